@@ -2527,7 +2527,18 @@ fn check_inline(op: &DiffOp, plain: &[Chg], got: &[IChg]) -> V {
 
 /// every op of the line diff of (old, new) x every deadline: one T4 request each
 fn inline_pair<T: DiffableStr + ?Sized>(ctx: &mut Ctx, alg: Algorithm, mode: Mode, old: &T, new: &T, dls: &[Option<u64>]) {
-    let (diff, _, _, _) = obs::with_world(None, false, |_| TextDiff::configure().algorithm(alg).diff_lines(old, new));
+    // the builder's `newline_terminated` override must not change the inline expansion (it only tells renderers whether to
+    // add a newline): a third of the pairs each with the flag left alone, forced off and forced on
+    let nlt = [None, Some(false), Some(true)][(old.len() + 2 * new.len()) % 3];
+    let (diff, _, _, _) = obs::with_world(None, false, |_| {
+        let mut cfg = TextDiff::configure();
+        cfg.algorithm(alg);
+        if let Some(b) = nlt {
+            cfg.newline_terminated(b);
+        }
+        cfg.diff_lines(old, new)
+    });
+    ctx.count(&format!("inline.newline_terminated_override.{:?}", nlt));
     let diff = match diff {
         Some(d) => d,
         None => {
@@ -2803,6 +2814,63 @@ pub fn suite_inline(ctx: &mut Ctx) {
         };
         ctx.count("inline.invalid_utf8_pairs");
         inline_pair_mode(ctx, ALGS[(i % 3) as usize], Mode::Bytes, &old, &new, &[None, Some(0)]);
+    }
+    // MULTI-LINE Replace blocks: k old lines against k (or k +- 1) new lines with no unchanged line in between, so that the
+    // line diff has ONE Replace op over the whole block; most line pairs differ in one word, some pairs have nothing in
+    // common, some lines change their word count or terminator -- however the block is refined, every line must come out once
+    let nblocks = if ctx.tier == Tier::Quick { 500u64 } else { 6000 };
+    for i in 0..nblocks {
+        if !ctx.take() {
+            continue;
+        }
+        let mut rng = case_rng(ctx, 0xb10c5, i);
+        let k = rng.range(2, 16);
+        let mut old = String::new();
+        let mut new = String::new();
+        if rng.chance(1, 2) {
+            old.push_str("shared first line\n");
+            new.push_str("shared first line\n");
+        }
+        for l in 0..k {
+            let words = rng.range(2, 6);
+            let base: Vec<String> = (0..words).map(|w| format!("w{}_{}", l, (w * 7 + l) % 5)).collect();
+            let mut o = base.clone();
+            let mut n = base.clone();
+            match rng.below(8) {
+                0 => {
+                    // nothing in common
+                    n = (0..rng.range(1, 7)).map(|w| format!("other{}x{}", l, w)).collect();
+                }
+                1 => {
+                    n.push("extra".to_string());
+                    n.push("words".to_string());
+                }
+                2 => {
+                    o.truncate(1);
+                }
+                _ => {
+                    let at = rng.below(words);
+                    n[at] = format!("changed{}", l);
+                }
+            }
+            let term = |rng: &mut Rng| ["\n", "\n", "\n", "\r\n", "\r"][rng.below(5)];
+            old.push_str(&o.join(" "));
+            old.push_str(term(&mut rng));
+            new.push_str(&n.join(" "));
+            new.push_str(term(&mut rng));
+        }
+        match rng.below(4) {
+            0 => new.push_str("one more line\n"),
+            1 => old.push_str("one more line\n"),
+            _ => {}
+        }
+        if rng.chance(1, 2) {
+            old.push_str("shared last line\n");
+            new.push_str("shared last line");
+        }
+        ctx.count("inline.multi_line_block_cases");
+        let mode = if i % 2 == 0 { Mode::Str } else { Mode::Bytes };
+        inline_pair_mode(ctx, ALGS[(i % 3) as usize], mode, old.as_bytes(), new.as_bytes(), &[None]);
     }
 }
 
